@@ -70,6 +70,12 @@ pub fn unify(state: &mut TypeCheckerState, watchdog: &DynWatchdog) -> Result<()>
         let mut made_progress = false;
 
         for (ty_var, inferences) in forest.sets() {
+            #[cfg(smlxl_storage_layout_extractor_verif)]
+            crate::verif::emit(|| crate::verif::Event::LoopIter {
+                site:  "tc.unify",
+                index: counter,
+            });
+
             // If we have been told to stop, stop and return an error.
             if counter % polling_interval == 0 && watchdog.should_stop() {
                 let location = state.value_unchecked(ty_var).instruction_pointer();
@@ -84,6 +90,11 @@ pub fn unify(state: &mut TypeCheckerState, watchdog: &DynWatchdog) -> Result<()>
 
             // Get all of the inferences
             let mut inferred_expressions: VecDeque<_> = inferences.into_iter().collect();
+            #[cfg(smlxl_storage_layout_extractor_verif)]
+            crate::verif::class_fold(
+                crate::data::vector_map::ToUniqueIndex::index(&ty_var),
+                inferred_expressions.make_contiguous(),
+            );
             let mut current = inferred_expressions
                 .pop_front()
                 .expect("We know there is at least one item in the expressions queue");
@@ -126,6 +137,15 @@ pub fn unify(state: &mut TypeCheckerState, watchdog: &DynWatchdog) -> Result<()>
         // to the state to continue computation
         for Judgement { tv, expr } in all_judgements {
             forest.add_data(&tv, InferenceSet::from([expr]));
+        }
+
+        #[cfg(smlxl_storage_layout_extractor_verif)]
+        {
+            let type_vars = state.tyvar_count();
+            crate::verif::emit(|| crate::verif::Event::Round {
+                type_vars,
+                progress: made_progress,
+            });
         }
 
         // If we didn't make any progress at any point, then we end the loop as we are
